@@ -125,6 +125,22 @@ theorem emLoop_sim {S S' α : Type} (f : S → S × α) (f' : S' → S' × α) (
     · simp only [h, Bool.false_eq_true, if_false]
       exact ih (step + 1) (f s).2 (f s).1
 
+/-- the same under an invariant of the states (the step commutes only on states satisfying it) -/
+theorem emLoop_sim_inv {S S' α : Type} (f : S → S × α) (f' : S' → S' × α) (stop stop' : α → α → Bool)
+    (Φ : S → S') (g : α → α) (Inv : S → Prop) (hinv : ∀ s, Inv s → Inv (f s).1)
+    (hstep : ∀ s, Inv s → f' (Φ s) = (Φ (f s).1, g (f s).2))
+    (hstop : ∀ p c, stop' (g p) (g c) = stop p c) (fuel step : ℕ) (prev : α) (s : S) (hs : Inv s) :
+    emLoop f' stop' fuel step (g prev) (Φ s) = (Φ (emLoop f stop fuel step prev s).1, (emLoop f stop fuel step prev s).2) := by
+  induction fuel generalizing step prev s with
+  | zero => rfl
+  | succ fuel ih =>
+    unfold emLoop
+    simp only [hstep s hs, hstop]
+    by_cases h : (step + 1 > 1 && stop prev (f s).2) = true
+    · simp only [h, if_true]
+    · simp only [h, Bool.false_eq_true, if_false]
+      exact ih (step + 1) (f s).2 (f s).1 (hinv s hs)
+
 /-- **a whole `KMeansMachine.fit` is equivariant** under every `KSim`: same number of iterations, final
 centroids mapped, for every chunking, threshold and iteration limit -/
 theorem kFit_sim (T : KSim D) (thr : Option ℝ) (fuel : ℕ) (c0 : ℝ) (cent0 : Fin (K+1) → Fin D → ℝ)
